@@ -27,10 +27,11 @@ def compare(main, twin, where):
     mv, tv = main["val"], twin["val"]
     n = min(len(mv), len(tv))
     for v in range(1, n):
-        # which literals THEORY PROPAGATION reaches above root level depends on the tableau's pivoting history (incompleteness, not
-        # unsoundness): a twin that never pivoted may propagate more.  Below root the literal comparison is therefore limited to
-        # contradictions; at root level the main network must know everything the twin knows.
-        if tv[v] != "2" and mv[v] != tv[v] and (main["lvl"] == 0 or mv[v] != "2"):
+        # which literals THEORY PROPAGATION reaches depends on the tableau's pivoting history (a bound on a variable that a past, undone
+        # decision made basic is not propagated through the rows; incompleteness, not unsoundness): a twin that never pivoted may propagate
+        # more, also at root level.  The property speaks about the state as a function of the ASSIGNED literals, so the literal comparison is
+        # limited to contradictions; that nothing assigned at root level is ever lost is checked on the main history itself (root_monotone).
+        if tv[v] != "2" and mv[v] != tv[v] and mv[v] != "2":
             fails.append(("twin/literal-lost-or-different", "%s: b%d is %s in a network that only took the standing decisions %s but %s in the network that came back to them" % (where, v, tv[v], main["dec"], mv[v])))
             return fails
     same = mv[:n] == tv[:n]
@@ -71,6 +72,25 @@ def twin_work(exes, start, n):
             part.inconc("abort/timeout in main network (owned by C18)" if tr is not None else "no answer")
             continue
         ops = case["ops"]
+        # root-level assignments are never undone: every later observation must still show them
+        root_known = {}
+        for i in range(1, len(ops) + 1):
+            if ops[i - 1] != "obs" or i not in tr.rets:
+                continue
+            o = tr.obs(i)
+            if o is None:
+                continue
+            part.count("observations checked against the root-level assignment")
+            lost = [v for v, x in root_known.items() if v < len(o["val"]) and o["val"][v] != x]
+            if lost:
+                v = lost[0]
+                d = "b%d was %s at root level (observation before op %d) but is %s after op %d '%s'" % (v, root_known[v], i, o["val"][v], i - 1, ops[i - 2])
+                part.violation("net/root-level-literal-lost", d, {"ops": ops, "detail": d, "driver": "net_drv"})
+                break
+            if o["lvl"] == 0:
+                for v, x in enumerate(o["val"]):
+                    if v >= 1 and x != "2":
+                        root_known[v] = x
         cps = []
         for i in range(case["nconstr"] + 1, len(ops), 2):
             name = ops[i - 1].split()[0] if i >= 1 else ""
@@ -139,7 +159,7 @@ def run(tier):
                         "restored by pops included); (c) mixed SAT+LRA+IDL+RDL+OV networks - up to 3 checkpoints per history compared with a twin network that only "
                         "took the standing decisions; non-trivial = the history contained a pop/conflict (a, b) or the twin could re-take the decisions (c)")
     res.assumptions = ["LRA *values* are not part of the compared state (they legitimately depend on the pivoting history); bounds, distances, domains and literal values are",
-                       "a main network may know MORE than its twin (sound learnt clauses); it must never know less"]
+                       "a main network may know more than its twin (sound learnt clauses) or less (theory propagation is incomplete and depends on the pivoting history); the two must never contradict each other, and nothing assigned at root level may ever be lost"]
     exes = [build.driver("dbg", "net_drv"), build.driver("rel", "net_drv")]
     total = 2400 if tier == "quick" else 20000
     per = 50 if tier == "quick" else 200
